@@ -8,6 +8,17 @@ func register(c *PropConfig) { propConfigs[c.ID] = c }
 
 func init() {
 	register(&PropConfig{
+		ID:       "C16",
+		Replay:   replayC16,
+		Packages: []string{"./parser/v2", "./generator", "./runtime"},
+		Assume: []string{
+			"strconv.Unquote of a quoted literal body agrees with the Go compiler on that literal; strings.Split(strings.Join(L, \"\\n\"), \"\\n\") == L for line-feed-free parts (library facts, not mechanised)",
+			"cmd/templ/generatecmd FSEventHandler.generate writes strings.Join(output.Literals, \"\\n\") to the text file and decides recompilation by generator.HasChanged(previous, output): read off the code, the function is outside the executor's subset (map with pointer-holding values)",
+			"parser invariant: element and attribute names contain no line feed; TrailingSpace is one of its three constants (type invariants)",
+			"HasChanged: see the known finding - the obligation 'no recompilation only if the generated code is the same' cannot be discharged from the fields HasChanged compares",
+		},
+	})
+	register(&PropConfig{
 		ID:       "C07",
 		Replay:   replayC07,
 		Packages: []string{"./parser/v2", "./generator"},
